@@ -240,6 +240,14 @@ pub fn c07_ops() -> Vec<Op> {
         let r1 = r.clone();
         v.push(Op::new(format!("hashes of {}", r.show()), move || format!("{:x?}", c07::hashes(&r1.build()))));
         v.push(Op::new(format!("hashes of {} built the other way round", r.show()), move || format!("{:x?}", c07::hashes(&m.build()))));
+        let r3 = r.clone();
+        v.push(Op::new(format!("hashes of {} built on another thread", r.show()), move || {
+            let r4 = r3.clone();
+            match std::thread::spawn(move || r4.build()).join() {
+                Ok(t) => format!("{:x?}", c07::hashes(&t)),
+                Err(_) => "builder thread died".to_string(),
+            }
+        }));
         let r2 = r.clone();
         v.push(Op::new(format!("{} found in a set holding it", r.show()), move || {
             let mut s = std::collections::HashSet::new();
@@ -414,10 +422,20 @@ pub fn c16_ops() -> Vec<Op> {
         if !c16::features(&x).is_empty() {
             continue;
         }
+        let x2 = x.clone();
         v.push(Op::new(format!("Typst text of {}", x.show()), move || match ops::typst(&x.build()) {
             Ok(s) => s,
             Err(e) => e,
         }));
+        if !x2.term.kids.is_empty() {
+            v.push(Op::new(format!("Typst text of {} built on another thread", x2.show()), move || {
+                let x3 = x2.clone();
+                match std::thread::spawn(move || x3.build()).join() {
+                    Ok(n) => ops::typst(&n).unwrap_or_else(|e| e),
+                    Err(_) => "builder thread died".to_string(),
+                }
+            }));
+        }
     }
     with_context(v)
 }
